@@ -342,19 +342,21 @@ type sendEv struct {
 }
 
 type scenario struct {
-	kind      string
-	senders   int
-	perSender int
-	gomax     int
-	useQueue  bool
-	queueSize int
-	bg        bool // start the background drain goroutine
-	bigFrames bool
-	schedule  []cut
-	singleton bool
-	sendClear bool
-	relicense bool // change the client's default license between two phases of sends
-	poison    bool // now and then a sender hands over a pack whose Write panics half-way
+	kind       string
+	senders    int
+	perSender  int
+	gomax      int
+	useQueue   bool
+	queueSize  int
+	bg         bool // start the background drain goroutine
+	bigFrames  bool
+	schedule   []cut
+	singleton  bool
+	sendClear  bool
+	relicense  bool // change the client's default license between two phases of sends
+	poison     bool // now and then a sender hands over a pack whose Write panics half-way
+	batchDrain bool // queue mode without the background goroutine: the caller drains with SendAndClear()
+	idleMs     int  // direct mode: client Timeout set to idleMs, connection left idle for longer between two phases
 }
 
 // poisonPack is a pack that cannot be encoded: its Write emits a few bytes and panics. Nothing
@@ -505,13 +507,21 @@ func runScenario(c *vlib.Ctx, sc scenario, r *vlib.Rand, label string) {
 	}
 	var swg sync.WaitGroup
 	phases := [][2]int{{0, sc.perSender}}
+	if sc.idleMs > 0 {
+		cl.Timeout = time.Duration(sc.idleMs) * time.Millisecond
+		phases = [][2]int{{0, sc.perSender / 2}, {sc.perSender / 2, sc.perSender}}
+	}
 	if sc.relicense {
 		phases = [][2]int{{0, sc.perSender / 2}, {sc.perSender / 2, sc.perSender}}
 	}
 	for pi, ph := range phases {
-		if pi == 1 {
+		if pi == 1 && sc.relicense {
 			// no send is in flight: the default license changes (what a configuration reload does)
 			cl.License = newLic
+		}
+		if pi == 1 && sc.idleMs > 0 {
+			// the healthy connection stays idle for longer than the client's write timeout
+			time.Sleep(time.Duration(sc.idleMs)*time.Millisecond + 300*time.Millisecond)
 		}
 		for s := 0; s < sc.senders; s++ {
 			swg.Add(1)
@@ -560,6 +570,9 @@ func runScenario(c *vlib.Ctx, sc scenario, r *vlib.Rand, label string) {
 	// recovery probe (fault scenarios, direct mode): after the schedule is exhausted keep
 	// sending until a send is acknowledged AND received.
 	faulty := len(sc.schedule) > 0
+	if faulty && sc.useQueue {
+		atomic.StoreInt32(&col.faultsOff, 1) // no further cuts: the sentinel below must get through
+	}
 	var probeEvs []sendEv
 	recovered := !faulty
 	if faulty && !sc.useQueue {
@@ -641,12 +654,24 @@ func runScenario(c *vlib.Ctx, sc scenario, r *vlib.Rand, label string) {
 		spl := pack.ToBytesPack(sp)
 		col.setSentinel(spl)
 		deadline := time.Now().Add(120 * time.Second)
+		if sc.batchDrain {
+			// no background goroutine: the caller drains what the senders enqueued
+			for cl.Queue.Size() > 0 {
+				if e := cl.SendAndClear(); e != nil {
+					c.Inconclusive(label, "SendAndClear on a healthy connection failed: "+e.Error())
+					return
+				}
+			}
+		}
 		for cl.SendFlush(sp, true) != nil {
 			if time.Now().After(deadline) {
 				c.Inconclusive(label, "sentinel could not be enqueued within 120 s")
 				return
 			}
 			time.Sleep(2 * time.Millisecond)
+		}
+		if sc.batchDrain {
+			cl.SendAndClear()
 		}
 		for atomic.LoadInt32(&col.sentinelSeen) == 0 {
 			if time.Now().After(deadline) {
@@ -785,6 +810,10 @@ func runScenario(c *vlib.Ctx, sc scenario, r *vlib.Rand, label string) {
 	if !faulty {
 		for i := range all {
 			e := &all[i]
+			if e.err != "" && !sc.useQueue && e.sender >= 0 {
+				c.Fail("send:error-on-healthy-connection/"+kindKey, "a send on a connection that the collector never cut returned an error: "+e.err,
+					detail(map[string]interface{}{"sender": e.sender, "seq": e.seq}))
+			}
 			if e.err == "" && seen[e.payload] == 0 {
 				lostAcked++
 				c.Fail("loss:healthy-connection/"+kindKey, "a send acknowledged with nil on a healthy connection never reached the collector",
@@ -1030,6 +1059,23 @@ func main() {
 			time.Sleep(time.Millisecond)
 		}
 		c.Count("scenarios/never-connected", 1)
+	})
+	// queue mode with the background drain and a collector that cuts connections: whole frames
+	// may be lost, but what arrives must be well-formed, unduplicated and in accepted order
+	c.Cases("queue-fault", scale(12, 200), func(i int, r *vlib.Rand) {
+		sch := cutPoints(r, i)
+		for k := range sch {
+			sch[k].Refuse = 0 // a refused reconnect parks the drain for 5 s
+		}
+		runScenario(c, scenario{kind: "queue-fault", senders: r.Range(1, 6), perSender: r.Range(20, 80), gomax: gomaxes[i%4], useQueue: true, queueSize: 0, bg: true, schedule: sch}, r, fmt.Sprint("queue-fault#", i))
+	})
+	// queue mode drained by the caller (no background goroutine), frames around the 2 MiB buffer
+	c.Cases("queue-batch-drain", scale(8, 100), func(i int, r *vlib.Rand) {
+		runScenario(c, scenario{kind: "queue-batch-drain", senders: r.Range(1, 4), perSender: r.Range(4, 30), gomax: gomaxes[i%4], useQueue: true, queueSize: 0, batchDrain: true, bigFrames: i%2 == 0}, r, fmt.Sprint("queue-batch-drain#", i))
+	})
+	// a healthy connection that stays idle for longer than the client's write timeout
+	c.Cases("healthy-idle", scale(3, 24), func(i int, r *vlib.Rand) {
+		runScenario(c, scenario{kind: "healthy-idle", senders: r.Range(1, 3), perSender: 10, gomax: gomaxes[i%4], idleMs: 1500}, r, fmt.Sprint("healthy-idle#", i))
 	})
 	// production path: singleton with its background goroutine, healthy connection
 	c.Cases("singleton-healthy", scale(2, 16), func(i int, r *vlib.Rand) {
